@@ -9,9 +9,72 @@ def _f(mod, fn):
     return call
 
 
+def _x(prop):
+    return _f('comp_explore', 'oracle_' + prop)
+
+
 PROPS = {
+    'C03': {
+        'lean': 'C03',
+        'corr': [_f('comp_xfer', 'corr'), _f('comp_download', 'corr')],
+        'oracles': [_x('C03')],
+        'modelled': ['tasks.Task.__call__ / SubmissionTask._main / futures.TransferCoordinator (Xfer model: uploads, copies, deletes)',
+                     'download retry loop (Download model)', 'downloads through the manager, callback and file-system faults: explorer only'],
+    },
+    'C04': {
+        'lean': 'C04',
+        'corr': [_f('comp_xfer', 'exec_corr'), _f('comp_sema', 'blocking_corr')],
+        'oracles': [_x('C04')],
+        'modelled': ['futures.BoundedExecutor + ThreadPoolExecutor (stage model)', 'utils.SlidingWindowSemaphore (blocking model)',
+                     'three-stage composition with nested submission: explorer only'],
+    },
+    'C05': {
+        'lean': 'C05',
+        'corr': [_f('comp_xfer', 'corr')],
+        'oracles': [_x('C05')],
+        'modelled': ['Xfer model of upload / copy transfers (create, parts, complete, abort cleanup, announce_done)',
+                     'legacy MultipartUploader: not modelled (D8)'],
+    },
+    'C06': {
+        'lean': 'C06',
+        'corr': [_f('comp_download', 'corr')],
+        'oracles': [_x('C06'), _f('comp_download', 'oracle')],
+        'modelled': ['file-system event model of a download to a path (Fs model); the real directory is inspected at every scheduling point by the explorer'],
+    },
+    'C07': {
+        'lean': 'C07',
+        'corr': [_f('comp_xfer', 'corr'), _f('comp_coord', 'corr')],
+        'oracles': [_x('C07')],
+        'modelled': ['futures.TransferCoordinator.cancel (Coord model)', 'Xfer model (cancel at any point)',
+                     'the four entry points in manager.py: explorer only'],
+    },
+    'C08': {
+        'lean': 'C08',
+        'corr': [_f('comp_xfer', 'corr')],
+        'oracles': [_x('C08')],
+        'modelled': ['announce_done / done callbacks / on_queued ordering (Xfer model)', 'downloads: explorer only'],
+    },
+    'C10': {
+        'lean': 'C10',
+        'corr': [_f('comp_xfer', 'exec_corr')],
+        'oracles': [_x('C10')],
+        'modelled': ['futures.BoundedExecutor (stage model)', 'wiring of TransferManager.__init__ (translator)'],
+    },
+    'C11': {
+        'lean': 'C11',
+        'corr': [_f('comp_xfer', 'exec_corr'), _f('comp_sema', 'corr')],
+        'oracles': [_x('C11'), _f('comp_upload', 'oracle_c11_realscale')],
+        'modelled': ['permit accounting of the upload-chunk semaphore, the sliding window, the io queue'],
+    },
+    'C18': {
+        'lean': 'C18',
+        'corr': [_f('comp_xfer', 'exec_corr')],
+        'oracles': [_x('C18')],
+        'modelled': ['executor shutdown(wait=True) as a stage with shut/join', 'isolation: permits are the only shared state (structural argument + explorer)'],
+    },
     'C01': {
         'lean': 'C01',
+        'explore': True,
         'corr': [_f('comp_upload', 'corr'), _f('comp_chunk', 'corr'), _f('comp_plan', 'corr')],
         'oracles': [_f('comp_upload', 'oracle')],
         'modelled': ['upload.UploadFilenameInputManager / UploadSeekableInputManager / UploadNonSeekableInputManager (slicing, _read)',
@@ -20,6 +83,7 @@ PROPS = {
     },
     'C02': {
         'lean': 'C02',
+        'explore': True,
         'corr': [_f('comp_download', 'corr'), _f('comp_defer', 'corr')],
         'oracles': [_f('comp_download', 'oracle')],
         'modelled': ['download.GetObjectTask._main / ImmediatelyWriteIOGetObjectTask', 'download.DownloadChunkIterator',
@@ -28,6 +92,7 @@ PROPS = {
     },
     'C09': {
         'lean': 'C09',
+        'explore': True,
         'corr': [_f('comp_chunk', 'corr'), _f('comp_download', 'corr')],
         'oracles': [_f('comp_chunk', 'oracle')],
         'modelled': ['utils.ReadFileChunk', 'upload.AggregatedProgressCallback', 'utils.StreamReaderProgress',
@@ -55,6 +120,7 @@ PROPS = {
     },
     'C12': {
         'lean': 'C12',
+        'explore': True,
         'corr': [_f('comp_sema', 'corr'), _f('comp_sema', 'blocking_corr')],
         'oracles': [_f('comp_sema', 'oracle'), _f('comp_sema', 'blocking_oracle')],
         'modelled': ['utils.SlidingWindowSemaphore', 'utils.TaskSemaphore', 'utils.CountCallbackInvoker',
@@ -69,3 +135,8 @@ PROPS = {
                      'copies._get_transfer_size', 'download ranged plan', 'processpool ranged plan'],
     },
 }
+
+
+for _p, _spec in PROPS.items():
+    if _spec.get('explore'):
+        _spec['oracles'] = list(_spec['oracles']) + [_x(_p)]
